@@ -1,5 +1,6 @@
 import StoneVerif.Model.IrCheck
 import StoneVerif.Lemmas.IrCheck
+import StoneVerif.Lemmas.IrCheckNoCrash
 import StoneVerif.Lemmas.IrCheckExamplesEnc
 /-! Property theorems for C10 (accepted defaults and computed examples are valid for the generated classes).
 
@@ -7,7 +8,7 @@ import StoneVerif.Lemmas.IrCheckExamplesEnc
 `data_types.<Type>.check` / `.check_example`, the reference-free part of `_compute_example*`,
 `_generate_python_value`); `Model/Rt/*` is the runtime of the generated classes.  `E : Ext` are the
 external calls both sides make (float arithmetic, the runtime's whole-string pattern match), `C : CExt`
-the ones only the compiler makes (`re.match` = prefix match, `float(str)`, `strptime`). -/
+the ones only the compiler makes (`re.match` = prefix match, `strptime`). -/
 set_option linter.unusedSimpArgs false
 set_option linter.unusedVariables false
 namespace StoneVerif.C10
@@ -65,26 +66,68 @@ theorem checkDefault_iff (E : Ext) (C : CExt) (us : List CUnion) (t : IrTy) (lit
   cases fieldDefault E C us t lit <;> simp [Except.map]
 
 /-- The float coercion of `_populate_field_defaults`: whatever literal is written for a field that is
-literally Float32 / Float64, the stored default is a float (so the generated class holds a float). -/
+literally Float32 / Float64, the stored default is a float (so the generated class holds a float). Only
+numbers are coerced: a string, `null` or a tag is refused by `check` (it used to reach `float()`). -/
 theorem default_float_coerced (E : Ext) (C : CExt) (us : List CUnion) (cls : String) (mn mx : Option FBits) (lit d : Lit)
     (hd : fieldDefault E C us (.float cls mn mx) lit = .ok d) : ∃ x, d = .flt x := by
-  simp only [fieldDefault] at hd
+  obtain ⟨hco, hck, _⟩ := fieldDefault_ok hd
   cases lit with
-  | null => simp [ccrash] at hd
-  | tagref _ => simp [ccrash] at hd
-  | flt x => exact ⟨x, (match_check_ok hd).2.symm⟩
+  | flt x => simp [coerceDefault] at hco; exact ⟨x, hco.symm⟩
   | int n =>
+    simp only [coerceDefault] at hco
     cases hx : E.fltOfInt n with
-    | none => simp [hx, ccrash] at hd
-    | some x => simp only [hx] at hd; exact ⟨x, (match_check_ok hd).2.symm⟩
+    | none => simp [hx] at hco
+    | some x => simp [hx] at hco; exact ⟨x, hco.symm⟩
   | bool b =>
+    simp only [coerceDefault] at hco
     cases hx : E.fltOfInt (if b = true then 1 else 0) with
-    | none => simp [hx, ccrash] at hd
-    | some x => simp only [hx] at hd; exact ⟨x, (match_check_ok hd).2.symm⟩
-  | str s =>
-    cases hx : C.fltOfStr s with
-    | none => simp [hx, invalid] at hd
-    | some x => simp only [hx] at hd; exact ⟨x, (match_check_ok hd).2.symm⟩
+    | none => simp [hx] at hco
+    | some x => simp [hx] at hco; exact ⟨x, hco.symm⟩
+  | null => simp [coerceDefault] at hco; subst hco; simp [check] at hck
+  | str s => simp [coerceDefault] at hco; subst hco; simp [check] at hck
+  | tagref g => simp [coerceDefault] at hco; subst hco; simp [check] at hck
+
+/-! ### the compile-time checks end in acceptance or in a spec error
+
+Before the frontend repairs (notes/c03_fix_notes.md) these were FALSE of the model and of the code (TypeError from
+`float(None)` / `float(TagRef)` and from formatting the `max_value` message, OverflowError from `float(10**400)`,
+NotImplementedError from `List/Map/Struct.check`, AssertionError from `Union.check`, ValueError from
+`Map.check_example`, TypeError from `ex_val.update(None)`); the model answered `crash` there and the correspondence
+suites compared the exception class. `tyKnown` (evaluated by the driver on every real input: the class names of the
+type are in the translator's tables / the API) only excludes names no compiler run produces. -/
+
+/-- `f T = lit` is accepted or is an InvalidSpec, for every type and every literal. -/
+theorem checkDefault_no_crash (E : Ext) (C : CExt) (us : List CUnion) (t : IrTy) (lit : Lit) (hk : tyKnown us t = true) :
+    ∀ exc, checkDefault E C us t lit ≠ .error (.crash exc) := by
+  intro exc h
+  unfold checkDefault at h
+  exact noCrash_map _ (fieldDefault_noCrash E C us t lit hk) exc h
+
+/-- Refusals that used to be crashes: a default on a List / Map / struct field (also behind aliases), and a
+literal that is not a tag on a union field. -/
+theorem default_refused_composite (E : Ext) (C : CExt) (us : List CUnion) (t : IrTy) (lit : Lit)
+    (h : defaultable (unwrapAll t) = false) : ∃ m, fieldDefault E C us t lit = .error (.invalid m) := by
+  cases t
+  case void => exact ⟨_, rfl⟩
+  case nullable => exact ⟨_, rfl⟩
+  all_goals
+    simp only [fieldDefault, populateDefault, h]
+    split
+    · exact ⟨_, rfl⟩
+    · exact ⟨_, rfl⟩
+
+theorem default_union_literal_refused (E : Ext) (C : CExt) (us : List CUnion) (cls : String) (lit : Lit)
+    (h : ∀ tag, lit ≠ .tagref tag) : ∃ m, fieldDefault E C us (.union cls) lit = .error (.invalid m) := by
+  cases lit <;> first | exact absurd rfl (h _) | exact ⟨_, rfl⟩
+
+/-- `check_example` of every member and `_add_example` of a struct / `_add_example` + `_compute_example` of a
+union end in acceptance or in a spec error, for every example value (lists, maps, references, literals). -/
+theorem example_check_no_crash (E : Ext) (C : CExt) (us : List CUnion) (ex : List (String × ExVal)) :
+    (∀ (cs : CStruct), (∀ f ∈ cs.allFields, tyKnown us f.ty = true) →
+      ∀ exc, addStructExample E C us cs ex ≠ .error (.crash exc)) ∧
+    (∀ (cu : CUnion), (∀ t ∈ cu.allTags, tyKnown us t.ty = true) →
+      ∀ exc, unionExample E C us cu ex ≠ .error (.crash exc)) :=
+  ⟨fun cs hk => addStructExample_noCrash E C us cs ex hk, fun cu hk => unionExample_noCrash E C us cu ex hk⟩
 
 /-! ### concrete external calls for the witnesses and examples
 
@@ -108,7 +151,6 @@ def exE : Ext where
 
 def exC : CExt where
   prefixMatch p s := (p == "a" && (s == "a" || s == "ab")) || (p == "[a-z]{2}" && (s == "ab" || s == "abc"))
-  fltOfStr _ := none
   strptimeOk f s := f == "%Y" && s == "2020"
 
 def emptyEnv : Env := { structs := [], unions := [] }
@@ -150,11 +192,17 @@ example : fieldDefault exE exC [] (.int "Int32" none none) (.int 2147483647) = .
 
 example : fieldDefault exE exC [] (.float "Float64" none none) (.int 1) = .ok (.flt 4607182418800017408) ∧
     fieldDefault exE exC [] (.alias "ns.F" none (.float "Float64" none none)) (.int 1) = .ok (.int 1) ∧
-    fieldDefault exE exC [] (.float "Float64" none none) .null = ccrash "TypeError" ∧
+    fieldDefault exE exC [] (.float "Float64" none none) .null = invalid "not a valid real number" ∧
+    fieldDefault exE exC [] (.float "Float64" none none) (.str "1.5") = invalid "not a valid real number" ∧
+    fieldDefault exE exC [] (.float "Float64" none none) (.int 7) = invalid "int too large to convert to float" ∧
+    fieldDefault exE exC [] (.float "Float64" none (some 0)) (.int 1) = invalid "greater than max_value" ∧
     fieldDefault exE exC [] (.nullable (.int "Int32" none none)) (.int 1) =
       invalid "Field cannot be a nullable type and have a default specified" ∧
-    fieldDefault exE exC [] (.list .bool none none) .null = ccrash "NotImplementedError" := by
-  exact ⟨rfl, rfl, rfl, rfl, rfl⟩
+    fieldDefault exE exC [] (.list .bool none none) .null =
+      invalid "Field cannot have a default: only fields of a primitive or union type can" ∧
+    fieldDefault exE exC [] (.alias "ns.L" none (.map (.str none none none) .bool)) .null =
+      invalid "Field cannot have a default: only fields of a primitive or union type can" := by
+  exact ⟨rfl, rfl, rfl, rfl, rfl, rfl, rfl, rfl, rfl⟩
 
 /-- a compiler whose pattern test is the runtime's (what repairing D12 gives): the law holds -/
 def anchoredC : CExt := { exC with prefixMatch := exE.patMatch }
@@ -255,7 +303,7 @@ example : (envOfC exApi).isSome = true ∧ unionsAgree exUnions exEnv = true := 
 example : fieldDefault exE exC exUnions (.union "ns.Tint") (.tagref "red") = .ok (.tagref "red") ∧
     fieldDefault exE exC exUnions (.union "ns.Tint") (.tagref "green") = invalid "invalid reference to non-void option" ∧
     fieldDefault exE exC exUnions (.union "ns.Tint") (.tagref "nosuch") = invalid "invalid reference to unknown tag" ∧
-    fieldDefault exE exC exUnions (.union "ns.Tint") (.int 1) = ccrash "AssertionError" ∧
+    fieldDefault exE exC exUnions (.union "ns.Tint") (.int 1) = invalid "not a valid union tag" ∧
     -- the ready instance belongs to the class that declares the tag (the parent)
     pyOfStored exUnions (.union "ns.Tint") (.tagref "red") = some (.union "ns.Color" "red" .none) ∧
     pyOfStored exUnions (.union "ns.Tint") (.tagref "pale") = some (.union "ns.Tint" "pale" .none) :=
